@@ -1,0 +1,249 @@
+//! Verification hooks (only compiled with `--cfg picilisp_verif`).
+//!
+//! Read-only heap snapshots, forced collections, a collection schedule
+//! consulted at the top of `allocate_internal`, and optional poisoning of
+//! swept cells.  Nothing here is reachable without the cfg flag.
+
+use super::*;
+use std::cell::{Cell as StdCell, RefCell};
+use std::collections::HashMap as StdHashMap;
+
+
+#[derive(Clone, Debug)]
+pub enum Schedule {
+    /// collect only when the free list is empty (the unhooked behaviour)
+    Natural,
+    /// additionally collect before every k-th allocation
+    Every(usize),
+    /// additionally collect before an allocation whenever an LCG says so (`per256` out of 256)
+    Lcg{ state: u64, per256: u64 },
+}
+
+thread_local! {
+    static SCHEDULE:    RefCell<Schedule> = RefCell::new(Schedule::Natural);
+    static ALLOCATIONS: StdCell<usize>    = StdCell::new(0);
+    static COLLECTIONS: StdCell<usize>    = StdCell::new(0);
+    static POISON:      StdCell<bool>     = StdCell::new(false);
+}
+
+pub const POISON_VALUE: i64 = -0x0DEAD0BEEF;
+
+pub fn set_schedule(s: Schedule) {
+    SCHEDULE.with(|x| *x.borrow_mut() = s);
+    ALLOCATIONS.with(|x| x.set(0));
+}
+
+pub fn set_poison(on: bool) {
+    POISON.with(|x| x.set(on));
+}
+
+pub fn collections() -> usize {
+    COLLECTIONS.with(|x| x.get())
+}
+
+pub fn reset_counters() {
+    ALLOCATIONS.with(|x| x.set(0));
+    COLLECTIONS.with(|x| x.set(0));
+}
+
+/// consulted once per `allocate_internal`
+pub fn collect_now() -> bool {
+    let n = ALLOCATIONS.with(|x| { let n = x.get() + 1; x.set(n); n });
+    SCHEDULE.with(|s| {
+        match &mut *s.borrow_mut() {
+            Schedule::Natural => false,
+            Schedule::Every(k) => *k != 0 && n % *k == 0,
+            Schedule::Lcg{ state, per256 } => {
+                *state = state.wrapping_mul(6364136223846793005).wrapping_add(1442695040888963407);
+                ((*state >> 33) & 0xff) < *per256
+            },
+        }
+    })
+}
+
+fn hex(s: &str) -> String {
+    let mut out = String::new();
+    for b in s.as_bytes() {
+        out.push_str(&format!("{:02x}", b));
+    }
+    if out.is_empty() { out.push('-'); }
+    out
+}
+
+fn location_to_string(l: &Location) -> String {
+    match l {
+        Location::Native                     => "native".to_string(),
+        Location::Prelude{ line, column }    => format!("prelude:{line}:{column}"),
+        Location::Stdin{ line, column }      => format!("stdin:{line}:{column}"),
+        Location::File{ path, line, column } => format!("file.{}:{line}:{column}", hex(&path.to_string_lossy())),
+    }
+}
+
+impl Memory {
+    pub fn verif_force_collect(&mut self) {
+        self.collect();
+    }
+
+    /// called at the end of every `collect`
+    pub fn verif_after_collect(&mut self) {
+        COLLECTIONS.with(|x| x.set(x.get() + 1));
+        if POISON.with(|x| x.get()) {
+            for i in self.first_free .. self.cells.len() {
+                self.cells[i].set(MetaValue::Value(PrimitiveValue::Number(POISON_VALUE)));
+            }
+        }
+    }
+
+    pub fn verif_cells_len(&self) -> usize {
+        self.cells.len()
+    }
+
+    /// sum of the handle counts of all cells (used and free)
+    pub fn verif_rc_sum(&self) -> usize {
+        self.cells.iter().map(|c| c.content.external_ref_count).sum()
+    }
+
+    /// sum of the handle counts of free cells (must always be 0)
+    pub fn verif_rc_sum_free(&self) -> usize {
+        self.cells[self.first_free ..].iter().map(|c| c.content.external_ref_count).sum()
+    }
+
+    pub fn verif_definition_count(&self) -> usize {
+        self.modules.values().map(|m| m.borrow().definitions.len()).sum()
+    }
+
+    /// one line describing the whole heap, with addresses mapped to vector indices
+    pub fn verif_snapshot(&self, with_modules: bool) -> String {
+        let mut index_of: StdHashMap<*const CellContent, usize> = StdHashMap::new();
+        for (i, c) in self.cells.iter().enumerate() {
+            index_of.insert(c.as_ptr_mut() as *const CellContent, i);
+        }
+        let idx = |p: *const CellContent| -> String {
+            if p.is_null() {
+                "_".to_string()
+            }
+            else if let Some(i) = index_of.get(&p) {
+                if *i < self.first_free { format!("{i}") } else { format!("!free{i}") }
+            }
+            else {
+                "!dangling".to_string()
+            }
+        };
+
+        let mut out = format!("len={} ff={} cells=", self.cells.len(), self.first_free);
+        for i in 0 .. self.first_free {
+            let c = &self.cells[i].content;
+            let desc =
+            match &c.metavalue {
+                MetaValue::Meta{ value, meta } => format!("M,{},{},{},{}", idx(*value), hex(&meta.read_name), location_to_string(&meta.location), hex(&meta.documentation)),
+                MetaValue::Value(PrimitiveValue::Number(n))    => format!("N,{n}"),
+                MetaValue::Value(PrimitiveValue::Character(c)) => format!("C,{}", *c as u32),
+                MetaValue::Value(PrimitiveValue::Cons(c))      => format!("K,{},{}", idx(c.car), idx(c.cdr)),
+                MetaValue::Value(PrimitiveValue::Symbol(s))    => format!("S,{},{}", s.name.as_ref().map(|n| hex(n)).unwrap_or("~".to_string()), idx(s.own_address)),
+                MetaValue::Value(PrimitiveValue::Trap(t))      => format!("T,{},{}", idx(t.normal_body), idx(t.trap_body)),
+                MetaValue::Value(PrimitiveValue::Function(Function::NativeFunction(nf))) => format!("P,{},{}", nf.kind.to_string(), hex(&nf.parameters.join(" "))),
+                MetaValue::Value(PrimitiveValue::Function(Function::NormalFunction(nf))) => {
+                    let params = nf.parameters.iter().map(|p| idx(*p)).collect::<Vec<String>>().join("/");
+                    format!("F,{},{},{},{},{},[{}]", nf.kind.to_string(), if nf.has_rest_params {1} else {0}, idx(nf.body), idx(nf.environment), hex(&nf.environment_module), params)
+                },
+            };
+            out.push_str(&format!("{i}:{}:{desc};", c.external_ref_count));
+        }
+
+        let mut syms = self.symbols.iter().map(|(n, p)| format!("{}>{}", hex(n), idx(*p))).collect::<Vec<String>>();
+        syms.sort();
+        out.push_str(&format!(" syms={}", syms.join(",")));
+
+        if with_modules {
+            let mut mods = vec![];
+            for (name, m) in self.modules.iter() {
+                let m = m.borrow();
+                let mut defs = m.definitions.iter().map(|(n, v)| format!("{}>{}", hex(n), idx(v.pointer))).collect::<Vec<String>>();
+                defs.sort();
+                let exports =
+                match &m.exports {
+                    None     => "*".to_string(),
+                    Some(ex) => { let mut e = ex.iter().map(|n| hex(n)).collect::<Vec<String>>(); e.sort(); format!("[{}]", e.join(",")) },
+                };
+                mods.push(format!("{}{{{}}}{{{}}}", hex(name), exports, defs.join(",")));
+            }
+            mods.sort();
+            out.push_str(&format!(" mods={} cur={}", mods.join("|"), hex(&self.current_module.borrow().name)));
+        }
+
+        out
+    }
+
+    /// executable well-formedness check of the heap; empty string = fine
+    pub fn verif_check_invariants(&self) -> String {
+        let mut problems = vec![];
+        let mut index_of: StdHashMap<*const CellContent, usize> = StdHashMap::new();
+        for (i, c) in self.cells.iter().enumerate() {
+            if index_of.insert(c.as_ptr_mut() as *const CellContent, i).is_some() {
+                problems.push(format!("duplicate-box@{i}"));
+            }
+        }
+        if self.first_free > self.cells.len() { problems.push("first_free>len".to_string()); }
+        if self.cells.len() == 0 { problems.push("len=0".to_string()); }
+        let used = |p: *const CellContent| -> bool {
+            p.is_null() || index_of.get(&p).map(|i| *i < self.first_free).unwrap_or(false)
+        };
+        for i in 0 .. self.first_free.min(self.cells.len()) {
+            let c = &self.cells[i].content;
+            let children: Vec<*const CellContent> =
+            match &c.metavalue {
+                MetaValue::Meta{ value, meta: _ } => vec![*value as *const CellContent],
+                MetaValue::Value(PrimitiveValue::Cons(c)) => vec![c.car as *const CellContent, c.cdr as *const CellContent],
+                MetaValue::Value(PrimitiveValue::Trap(t)) => vec![t.normal_body as *const CellContent, t.trap_body as *const CellContent],
+                MetaValue::Value(PrimitiveValue::Function(Function::NormalFunction(nf))) => {
+                    let mut v = vec![nf.body as *const CellContent, nf.environment as *const CellContent];
+                    v.extend(nf.parameters.iter().map(|p| *p as *const CellContent));
+                    v
+                },
+                MetaValue::Value(PrimitiveValue::Symbol(s)) => {
+                    if s.own_address != (&**c as *const CellContent) { problems.push(format!("symbol-own-address@{i}")); }
+                    if let Some(n) = &s.name {
+                        if self.symbols.get(n).map(|p| *p != (&**c as *const CellContent)).unwrap_or(true) {
+                            problems.push(format!("named-symbol-not-in-table@{i}"));
+                        }
+                    }
+                    vec![]
+                },
+                _ => vec![],
+            };
+            for ch in children {
+                if !used(ch) { problems.push(format!("child-not-used@{i}")); }
+            }
+        }
+        for i in self.first_free.min(self.cells.len()) .. self.cells.len() {
+            if self.cells[i].content.external_ref_count != 0 { problems.push(format!("free-cell-with-handles@{i}")); }
+        }
+        for (n, p) in self.symbols.iter() {
+            match index_of.get(p) {
+                Some(i) if *i < self.first_free => {
+                    if let MetaValue::Value(PrimitiveValue::Symbol(s)) = &self.cells[*i].content.metavalue {
+                        if s.name.as_ref() != Some(n) { problems.push(format!("table-entry-wrong-name@{i}")); }
+                    }
+                    else {
+                        problems.push(format!("table-entry-not-symbol@{i}"));
+                    }
+                },
+                _ => problems.push(format!("table-entry-not-used:{}", hex(n))),
+            }
+        }
+        problems.join(",")
+    }
+}
+
+impl Symbol {
+    pub fn verif_is_named(&self) -> bool {
+        self.name.is_some()
+    }
+}
+
+impl GcRef {
+    /// index of the cell in the vector (for the driver's own bookkeeping); None for the nil pointer
+    pub fn verif_is_null(&self) -> bool {
+        self.pointer.is_null()
+    }
+}
